@@ -1,6 +1,6 @@
 /-
 Bridge lemmas for translator T-f: `PartialJoin.columns_required`, `PartialJoin.commute`,
-`Materialization.simplify`, `Transfer.simplify`, `Chain._begin_apply` and `PartialJoin._begin_apply`, as regenerated from the
+`Materialization.simplify`, `Transfer.simplify`, `Chain._begin_apply`, `Join._begin_apply` and `PartialJoin._begin_apply`, as regenerated from the
 current source (Gen/RelOps.lean), are the model's definitions.
 -/
 import DafRel.Gen.RelOps
@@ -38,6 +38,23 @@ theorem PartialJoin_begin_apply_eq (fuel : Nat) (p : PJoin) (t : Rel) (pref : Op
       have hr : JoinOp.resolved { p.join with minCols := c, maxCols := some c } = true := by
         simp [JoinOp.resolved, seteq_self]
       simp [hr, PartialJoin_columns_required_eq]
+
+/-- `Join._begin_apply(lhs, rhs)`, as regenerated, is the model's `joinBeginApply`. -/
+theorem Join_begin_apply_eq (j : JoinOp) (l r : Rel) : Gen.Join_begin_apply j l r = joinBeginApply j l r := by
+  unfold Gen.Join_begin_apply joinBeginApply
+  simp only [bind, Except.bind, pure, Except.pure, throw, throwThe, MonadExceptOf.throw]
+  by_cases h0 : (!(j.pred.columnsRequired.subset (l.columns.union r.columns))) = true
+  · simp [h0]
+  · simp only [h0, Bool.false_eq_true, if_false]
+    by_cases hres : (!j.resolved) = true
+    · simp only [hres, if_true]
+      cases hc : j.appliedCommonColumns l.columns r.columns with
+      | error e => rfl
+      | ok c => rfl
+    · simp only [hres, Bool.false_eq_true, if_false]
+      cases hc : j.commonColumns with
+      | error e => rfl
+      | ok c => rfl
 
 theorem Materialization_simplify_eq : (t : Rel) → Gen.Materialization_simplify t = matSimplify t
   | .leaf .. => by simp [Gen.Materialization_simplify, matSimplify]
